@@ -252,6 +252,12 @@ def gen_job(seed, profile="general"):
                 else:
                     ramp.append({"target": f"item:{k}", "values": [round(tv * (i + 1) / n, 6) for i in range(n)]})
         steps.append({"ramp": ramp, "_end": vals[-1]})
+    if nsteps == 2 and len(items) > 1 and r.random() < 0.4:
+        # the second step works on a subset of the items (the solid bodies and constraints only)
+        keep = [k for k, it in enumerate(items) if it["type"].startswith("SolidBody") and it["type"] not in ("SolidBodyPressure", "SolidBodyCauchyStress", "SolidBodyForce", "SolidBodyGravity") or it["type"].startswith("MultiPoint")]
+        if keep and len(keep) < len(items):
+            steps[1]["items"] = keep
+            steps[1]["ramp"] = [rp for rp in steps[1]["ramp"] if not rp["target"].startswith("item:") or int(rp["target"][5:]) in keep]
     for s in steps:
         s.pop("_end")
     for it in items:
@@ -262,7 +268,7 @@ def gen_job(seed, profile="general"):
         doc["newton"]["tol"] = r.choice([1e-6, 1e-8, 1e-10, 1e-4])
     if r.random() < 0.3:
         doc["newton"]["maxiter"] = r.choice([4, 8, 12, 25])
-    doc["knobs"] = {"verbose": r.choice([False, False, 2]), "clock": r.choice(["normal", "skew", "jump", "backwards", "frozen"]), "clock_seed": r.randrange(1000)}
+    doc["knobs"] = {"verbose": r.choice([False, False, False, 2, 2, True]), "clock": r.choice(["normal", "skew", "jump", "backwards", "frozen"]), "clock_seed": r.randrange(1000)}
     doc["faults"] = []
     return doc
 
